@@ -1,7 +1,7 @@
 SPECIFICATION Spec
 CONSTANTS
   MaxAtoms = 2
-  NTags = {0, 1}
+  NTags = {0, 1, 2}
   NFields = {1, 2}
   Pairs = TRUE
   Lenient = TRUE
